@@ -392,7 +392,23 @@ impl ExtractorCompactorBackup {
             .metadata()
             .map_err(|e| StorageError::Archive(format!("failed to stat backup: {e}")))?;
 
-        if metadata.len() == 0 {
+        // A crash while an earlier record was appended can leave a torn header
+        // or a torn record behind. Appending behind it would shift every later
+        // record: the torn bytes are cut off first.
+        let mut len = metadata.len();
+        let header_size = BACKUP_HEADER_SIZE as u64;
+        let torn = if len < header_size {
+            len
+        } else {
+            (len - header_size) % 4
+        };
+        if torn != 0 {
+            len -= torn;
+            file.set_len(len)
+                .map_err(|e| StorageError::Archive(format!("failed to trim backup: {e}")))?;
+        }
+
+        if len == 0 {
             file.write_all(&[BACKUP_VERSION]).map_err(|e| {
                 StorageError::Archive(format!("failed to write backup header: {e}"))
             })?;
